@@ -74,7 +74,7 @@ func next(kind string) Value {
 	for pos < len(replay.Values) {
 		v := replay.Values[pos]
 		pos++
-		if v.Kind == "storeget" || strings.HasPrefix(v.Kind, "uf:") && !strings.HasPrefix(kind, "uf:") {
+		if v.Kind == "storeget" || strings.HasPrefix(v.Tag, "env:") || strings.HasPrefix(v.Kind, "uf:") && !strings.HasPrefix(kind, "uf:") {
 			continue
 		}
 		return v
